@@ -132,16 +132,30 @@ package executors
 //@   ensures wgWaits(pe.waitGroup) == old(wgWaits(pe.waitGroup)) + 1 && ctRemoveAlls == old(ctRemoveAlls) + 1
 //@   ensures wg(pe.waitGroup) == old(wg(pe.waitGroup))
 
-// the flusher goroutine: a batch handed over through `commander` is registered with the wait group BEFORE the producer is
-// released (confirmChan), so that a Wait that starts after Add returned covers it; every received batch goes to
-// executeTasks exactly once
+// Add: a threshold batch is registered with the wait group by ITS OWN producer before it is handed over through `commander`
+// (F16: registering it in the flusher and confirming on a shared channel let another producer take the confirmation and
+// return from Add - and from Wait - with its own batch still queued and uncounted); what is handed over is exactly the batch
+// that addAndCheck took out of the container
+//@ func (pe *PeriodicalExecutor) Add
+//@   property C11
+//@   flag nolock private_channels
+//@   requires pe.container != nil
+//@   ghost at entry: full = false
+//@   ghost at after addAndCheck#0: batch = ret0
+//@   ghost at after addAndCheck#0: full = ret1
+//@   ghost at after addAndCheck#0: w1 = wg(pe.waitGroup)
+//@   call send#0: assert full && arg_sent == batch && wg(pe.waitGroup) == w1 + 1
+//@   ensures_local implies(full, wg(pe.waitGroup) == w1 + 1)
+
+// the flusher goroutine: every received batch goes to executeTasks exactly once (which releases the registration its
+// producer made); the flusher itself registers nothing for a handed-over batch
 //@ func (pe *PeriodicalExecutor) backgroundFlush closure 0
 //@   property C11
 //@   flag nolock callbacks_noheap
 //@   requires pe.container != nil
 //@   ghost at entry: w0 = wg(pe.waitGroup)
 //@   ghost at arm pe.commander: w0 = wg(pe.waitGroup)
-//@   call send#0: assert wg(pe.waitGroup) == w0 + 1
-//@   call executeTasks#0: assert arg_tasks == vals
+//@   call send#0: assert wg(pe.waitGroup) == w0
+//@   call executeTasks#0: assert arg_tasks == vals && wg(pe.waitGroup) == w0
 //@   loop 0: modifies wg(pe.waitGroup), ctExecutes, ctExecArg, ctRemoveAlls, ctBatch, pe.inflight, pe.guarded
 //@   loop 0: invariant pe.container != nil
